@@ -34,6 +34,7 @@ import (
 	listener "github.com/envoyproxy/go-control-plane/envoy/config/listener/v3"
 	hcm "github.com/envoyproxy/go-control-plane/envoy/extensions/filters/network/http_connection_manager/v3"
 	discovery "github.com/envoyproxy/go-control-plane/envoy/service/discovery/v3"
+	rpcstatus "google.golang.org/genproto/googleapis/rpc/status"
 	"google.golang.org/grpc/codes"
 	"google.golang.org/grpc/metadata"
 	"google.golang.org/grpc/peer"
@@ -47,7 +48,7 @@ import (
 
 var longType = map[string]string{
 	"CDS": v3.ClusterType, "EDS": v3.EndpointType, "LDS": v3.ListenerType, "RDS": v3.RouteType,
-	"WDS": v3.AddressType, "WADS": v3.WorkloadAuthorizationType, "ECDS": v3.ExtensionConfigurationType,
+	"WDS": v3.AddressType, "WADS": v3.WorkloadAuthorizationType, "ECDS": v3.ExtensionConfigurationType, "NDS": v3.NameTableType,
 }
 
 func shortType(url string) string {
@@ -95,6 +96,7 @@ type envoy struct {
 	want     []string          // ztunnel on-demand: the names explicitly subscribed (sorted)
 	unsubbed map[string]bool   // ztunnel on-demand: names explicitly unsubscribed and not subscribed again
 	stale    map[string]string // ztunnel reconnect: versions to present instead of the retained ones (name -> version)
+	nds      bool              // DNS capture: the proxy also subscribes to the name table (NDS)
 
 	mu      sync.Mutex
 	held    held
@@ -136,8 +138,10 @@ type stream struct {
 	reconnect   bool
 	lastType    string // type of the last response seen
 	log         []string
-	zombie      bool  // the client has given this stream up without closing it (the server has not noticed): what the server sends on it vanishes
-	err         error // what Stream / StreamDeltas returned (valid once done is closed)
+	nackNext    map[string]bool // the next request of these types carries error_detail
+	keepNonce   bool            // opened with connectOpts.keepNonce (read by the ztunnel first request)
+	zombie      bool            // the client has given this stream up without closing it (the server has not noticed): what the server sends on it vanishes
+	err         error           // what Stream / StreamDeltas returned (valid once done is closed)
 }
 
 func newEnvoy(label string, delta bool, nodeName string) *envoy {
@@ -240,6 +244,9 @@ func (s *stream) node() *envoycore.Node {
 		return nil
 	}
 	s.sentNode = true
+	if s.e.nds {
+		s.e.meta.DNSCapture = true
+	}
 	return &envoycore.Node{Id: s.e.nodeID, Metadata: s.e.meta.ToStruct()}
 }
 
@@ -255,6 +262,10 @@ func (s *stream) sendSotw(typ string, names []string, nonce, version string) {
 		return
 	}
 	r := &discovery.DiscoveryRequest{TypeUrl: longType[typ], ResourceNames: names, ResponseNonce: nonce, VersionInfo: version, Node: s.node()}
+	if s.nackNext[typ] {
+		delete(s.nackNext, typ)
+		r.ErrorDetail = &rpcstatus.Status{Code: 13, Message: "rejected on the previous stream"}
+	}
 	s.reqs[typ]++
 	s.queued.Add(1)
 	s.touch()
@@ -269,11 +280,32 @@ func (s *stream) sendDelta(typ string, sub, unsub []string, nonce string, initia
 	}
 	r := &discovery.DeltaDiscoveryRequest{TypeUrl: longType[typ], ResourceNamesSubscribe: sub, ResourceNamesUnsubscribe: unsub,
 		ResponseNonce: nonce, InitialResourceVersions: initial, Node: s.node()}
+	if s.nackNext[typ] {
+		delete(s.nackNext, typ)
+		r.ErrorDetail = &rpcstatus.Status{Code: 13, Message: "rejected on the previous stream"}
+	}
 	s.reqs[typ]++
 	s.queued.Add(1)
 	s.touch()
 	s.logf(">%s +%d -%d init=%d ack=%v", typ, len(sub), len(unsub), len(initial), nonce != "")
 	s.dlt <- r
+}
+
+// sendProbe: a HealthInformation request of the istio-agent's health checker (a VM proxy with a readiness
+// probe). It carries no node; sent BEFORE the first xDS request the server has to skip it and initialise the
+// connection on the next request. Caller holds e.mu.
+func (s *stream) sendProbe() {
+	if s.dead {
+		return
+	}
+	s.queued.Add(1)
+	s.touch()
+	s.logf(">HEALTH probe")
+	if s.dlt != nil {
+		s.dlt <- &discovery.DeltaDiscoveryRequest{TypeUrl: v3.HealthInfoType}
+	} else {
+		s.sotw <- &discovery.DiscoveryRequest{TypeUrl: v3.HealthInfoType}
+	}
 }
 
 // kill: caller holds e.mu
@@ -339,7 +371,7 @@ func (e *envoy) applySotw(s *stream, resp *discovery.DiscoveryResponse) {
 	s.logf("<%s %d v=%s", typ, len(got), resp.VersionInfo)
 	old := e.held[typ]
 	switch typ {
-	case "CDS", "LDS":
+	case "CDS", "LDS", "NDS":
 		e.held[typ] = got
 	default:
 		if e.held[typ] == nil {
@@ -359,7 +391,7 @@ func (e *envoy) applySotw(s *stream, resp *discovery.DiscoveryResponse) {
 	}
 	// ACK
 	switch typ {
-	case "CDS", "LDS":
+	case "CDS", "LDS", "NDS":
 		s.sendSotw(typ, nil, resp.Nonce, resp.VersionInfo)
 	default:
 		s.sendSotw(typ, e.subs[typ], resp.Nonce, resp.VersionInfo)
@@ -450,7 +482,7 @@ func (e *envoy) applyDelta(s *stream, resp *discovery.DeltaDiscoveryResponse) {
 	if e.held[typ] == nil {
 		e.held[typ] = map[string]resEntry{}
 	}
-	wildcard := typ == "CDS" || typ == "LDS" || typ == "WDS" // a ztunnel takes whatever WDS resource it is sent
+	wildcard := typ == "CDS" || typ == "LDS" || typ == "NDS" || typ == "WDS" // a ztunnel takes whatever WDS resource it is sent
 	want := map[string]bool{}
 	for _, n := range e.subs[typ] {
 		want[n] = true
@@ -618,6 +650,10 @@ type connectOpts struct {
 	hold      bool // do not send the first requests yet (the caller does via kick)
 	// the caller expects the server to refuse the stream (not ready): the returned error is not a client error
 	expectRefusal bool
+	// a health probe of the agent reaches the server before the first xDS request of the stream
+	probeFirst bool
+	// types whose first request carries error_detail: the NACK the proxy had queued when the previous stream broke
+	nackFirst map[string]bool
 }
 
 // connect opens a new stream to the server. A client that holds state presents it.
@@ -629,6 +665,7 @@ func (e *envoy) connect(st *site, o connectOpts) *stream {
 	s := &stream{e: e, ctx: ctx, cancel: cancel, done: make(chan struct{}), resps: map[string]int{}, reqs: map[string]int{},
 		removedSeen: map[string]map[string]bool{}, nonces: map[string]string{}, cutAfter: o.cutAfter, cutDrop: o.cutDrop, cutErr: o.cutErr}
 	s.reconnect = len(e.nResp) > 0
+	s.keepNonce = o.keepNonce
 	s.touch()
 	if e.delta {
 		s.dlt = make(chan *discovery.DeltaDiscoveryRequest, 4096)
@@ -671,6 +708,15 @@ func (e *envoy) connect(st *site, o connectOpts) *stream {
 
 // firstRequests sends the first request per type of a stream: caller holds e.mu.
 func (e *envoy) firstRequests(s *stream, o connectOpts) {
+	if len(o.nackFirst) > 0 {
+		s.nackNext = map[string]bool{}
+		for t := range o.nackFirst {
+			s.nackNext[t] = true
+		}
+	}
+	if o.probeFirst {
+		s.sendProbe()
+	}
 	if e.zt != "" {
 		e.ztFirstRequest(s)
 		return
@@ -679,8 +725,14 @@ func (e *envoy) firstRequests(s *stream, o connectOpts) {
 	if order == nil {
 		order = []string{"CDS", "LDS", "EDS", "RDS"}
 	}
+	if e.nds {
+		// the agent's DNS proxy asks for the name table on the same stream (wildcard, one unnamed resource)
+		order = append(append([]string{}, order...), "NDS")
+	}
+	// a reconnecting proxy re-sends its extension config subscription as well
+	order = append(append([]string{}, order...), "ECDS")
 	for _, typ := range order {
-		wildcard := typ == "CDS" || typ == "LDS"
+		wildcard := typ == "CDS" || typ == "LDS" || typ == "NDS"
 		if !wildcard && len(e.subs[typ]) == 0 {
 			continue
 		}
